@@ -10,7 +10,15 @@
   Sync: the write/eviction path is covered by the `*_sk` lemmas of `Lemmas/SyncNodes.lean`;
   here: `applyRead` is exactly one `incr1`, `applyReads` a `feed`, the loop of `Inner::sync`
   runs its body once, and the effect of `syncRun`, `trySync`, `scheduleWriteOp`,
-  `recordReadOp` on the sketch and on the read queue (`Drain`).
+  `recordReadOp` and of every step on the sketch and on the read queue (`Drain`).
+
+  Whole histories: `Recorded` (the sketch is a freshly sized one that has recorded exactly the
+  lookups made since it was switched on) is an invariant of both models
+  (`Unsync.SkF.runState_recorded`, `Sync.SkF.stateAfter_recQ`).
+
+  `Sketch.increment` is never unfolded on symbolic arguments: `incr1` / `feed` treat it as an
+  opaque function; the only fact used about it is `increment_of_empty` (through
+  `Sketch.incGenQ`) and the abstract `SketchLaws`.
 -/
 import MiniMoka.Lemmas.UnsyncStep
 import MiniMoka.Lemmas.SketchLaws
@@ -725,16 +733,18 @@ theorem syncLoop_one (p : Params) (fuel : Nat) (s : SState) :
   rw [syncLoop_succ, a, b]
   rfl
 
+theorem shouldEnableSketch_off {p : Params} {s : SState} (hen : shouldEnableSketch p s = true) :
+    s.skOn = false := by
+  unfold shouldEnableSketch at hen
+  cases hs : s.skOn with
+  | false => rfl
+  | true => rw [hs] at hen; simp at hen
+
 theorem enableSketch_en (p : Params) (s : SState) (hen : shouldEnableSketch p s = true) :
     Enabled s.sk s.skOn (enableSketch p s).sk (enableSketch p s).skOn := by
-  have hoff : s.skOn = false := by
-    unfold shouldEnableSketch at hen
-    cases hs : s.skOn with
-    | false => rfl
-    | true => rw [hs] at hen; simp at hen
   unfold enableSketch
   split
-  · exact Or.inr ⟨hoff, rfl, _, rfl⟩
+  · exact Or.inr ⟨shouldEnableSketch_off hen, rfl, _, rfl⟩
   · exact Or.inl ⟨rfl, rfl⟩
 
 theorem Enabled.sameR {sk : Sketch} {on : Bool} {s s' : SState}
